@@ -18,7 +18,7 @@ TECHNIQUE = "exhaustive enumeration of categorical level assignments (fitting / 
 RULE = (
     "(a) frames of 3 fitting rows + 2 holdout rows + 1 unexpected row; one fixed effect: every assignment of levels {a,b,c} to the 6 rows (unexpected "
     "also missing) ; two fixed effects: every assignment of the first over {a,b,c} x second over {p,q} and over {p,q,r} on a covering slice (thorough: complete), and both effects with selected levels over shared level names; x selected levels {all,[a],[a,b]} "
-    "x features {none,[x],[baseline_normalized_margin,x]} x centring on/off x separate-state models {none,[AA],[BB without reporting unit]} x intercept on "
+    "x features {none,[x],[baseline_normalized_margin,x]} x centring on/off x separate-state models {none,[AA],[BB without reporting unit],[BB,CC],[AA,BB,CC]} x intercept on "
     "(off only without fixed effects), each assignment also with repeating row labels (as produced by concatenating frames). Oracle: fit and predict column lists equal and ordered intercept / baseline-margin / rest; per effect exactly one "
     "observed level absorbed; every fitted dummy non-constant on fitting rows; seen level => its indicator, unseen => 1/(k+1) on each fitted level; centring "
     "over all rows; 'other' pooling; state copies only for reporting states. (b) real runs of all three estimators with fixed effects, a covariate that "
@@ -266,9 +266,12 @@ def _feat_case(case, cov, viol):
             (["baseline_normalized_margin", "x"], False, [], True),
             (["x", "baseline_normalized_margin"], True, ["AA"], True),
             (["x"], False, ["BB"], True),
+            # several listed states, a silent one in front of / between reporting ones
+            (["x"], True, ["BB", "CC"], True),
+            (["x", "baseline_normalized_margin"], False, ["AA", "BB", "CC"], True),
         ]
         if case["kind"] == "feat2":
-            variants = [variants[idx % 5], variants[(idx + 2) % 5]]
+            variants = [variants[idx % 7], variants[(idx + 2) % 7]]
         for feats, center, states, intercept in variants:
             ctx = f"fe1={l1} fe2={l2} selected={sel} selected_fe2={sel2} features={feats} centre={center} separate_states={states} intercept={intercept}"
             nt = _check_featurizer(df, effects, sel, feats, center, states, intercept, viol, cov, ctx + (" numeric_level_codes" if case.get("intcode") else ""), nf=nf, sel2=sel2, intcode=bool(case.get("intcode")))
